@@ -7,6 +7,10 @@ TECH = "bounded symbolic execution of the real code's go/ssa form, every branch/
 BASE = "cd /repo && go test -vet=off -count=1 -timeout 25m ./..."
 
 CLAIMED = {
+ "C14": dict(
+   text="For each copy of the dispatch-limit logic reachable without the multicast peer (file read/write on stream socket, pipe ends and regular file; listener accept; packet conn read/write) one step from an ARBITRARY depth d in [0, MaxCallbackDispatch] (symbolic), which by induction covers chains of any length and any mix: inside every completion callback Dispatched equals the number of callbacks on the stack and is <= the limit, nesting <= limit+1; a callback that starts another operation on a different object nests inline below the limit and is deferred at it; at d = limit the operation is not run synchronously, is armed in the kernel, and when the poller dispatches it completes with the inline result; afterwards the accounting is back to its starting value.",
+   note="multicast.UDPPeer (fifth copy) is not covered (its package is not substituted onto the kernel model yet). Known finding KF-C14-1 (regular files cannot take the deferred path) is reported as KNOWN-FINDING.",
+   ref="DESIGN.md §4 C14"),
  "C01": dict(
    text="All histories of k=2/3 actions {start read/read-all/write/write-all, Cancel, Close, poll cycle} over two objects (stream socket, pipe read end, pipe write end as file objects) sharing one real IO + epoll poller on the kernel model, started inline or at the dispatch limit, with every kernel outcome (data, EOF, EAGAIN, error), every poll batch of <= 1/2 entries in any order with any mask incl. ERR/HUP (HUP alone on pipes), and completion callbacks that re-issue, cancel or close themselves or the other object; plus both directions armed on one socket followed by k=2/3 further actions. Asserted: each callback at most once; Cancel completes each in-flight operation once with ErrCancelled; nothing invoked after Close returned; every uncompleted operation is armed in sonic's books AND in the kernel's interest list; an ERR/HUP entry completes an in-flight operation.",
    note="Kernel contract of DESIGN.md §3 (vsys/vkernel) is assumed: spurious readiness allowed, HUP/ERR is a permanent condition after which I/O no longer returns EAGAIN. Objects: sonic file over socket/pipe descriptors; listener, packet conn and AsyncAdapter follow the same reactor code but are not in this harness; kqueue back end, more than 2 objects / 2 simultaneous entries are outside the claim.",
